@@ -21,9 +21,9 @@ CONDS = ['multivalue', 'multivalue_three_rows', 'onesided', 'onesided_three_rows
 INFO = {
     'engine': 'crosshair-tool 0.0.110 + z3; symx for the pipeline condition',
     'explanation': 'see level text',
-    'bounds': {'quick': {**{c: 'see precondition in harness/ch_c11.py' for c in CONDS}, 'pipeline': '3 rows x 4 columns, 2 symbolic multi-value cells from a pool of 4, all 80 flag combinations (incl. mappings mixing -> and <->)'},
+    'bounds': {'quick': {**{c: 'see precondition in harness/ch_c11.py' for c in CONDS}, 'pipeline': '3 rows x 4 columns, 2 symbolic multi-value cells from a pool of 4, all 120 flag combinations (one or two exploded multi-value columns (incl. mappings mixing -> and <->)'},
                'thorough': {**{c: 'same conditions, longer budget' for c in CONDS}, 'pipeline': 'same'}},
-    'outside': ['distributions of the random control features', 'values containing "&" in two-sided sub-features (the column name then does not identify the pair)', 'larger frames'],
+    'outside': ['distributions of the random control features', 'larger frames'],
     'assumptions': ['pandas replaced by sympd and set by a list-backed set inside CrossHair', 'mixed_rank_graph replaced by a recorder in the pipeline condition'],
     'job_timeout': {'quick': 600, 'thorough': 2400},
     'max_replays': 10, 'max_replays_per_cond': 2,
@@ -31,9 +31,10 @@ INFO = {
 _ch_jobs, _ch_run = chharness.make('harness.ch_c11', CONDS, {'quick': 240, 'thorough': 900},
                                    [('outrank/core_ranking.py', ['compute_expanded_multivalue_features', 'compute_subfeatures'])])
 
-FA_POOL = ['a,b', 'b', '', 'a-c']
-FLAGS = [(ex, sub, order, noise, tr) for ex in ('False', 'fa') for sub in ('False', 'fa->fb', 'fb<->fa', 'fa->fb;fb<->fa', 'fb<->fa;fa->fb') for order in (1, 2) for noise in ('True', 'False') for tr in ('none', 'minimal')]
-COLS = ['fa', 'fb', 'num', 'label']
+FA_POOL = ['a,b', '', 'a-c', 'b']      # quick tier: the first three
+FLAGS = [(ex, sub, order, noise, tr) for ex in ('False', 'fa', 'fa;fc') for sub in ('False', 'fa->fb', 'fb<->fa', 'fa->fb;fb<->fa', 'fb<->fa;fa->fb') for order in (1, 2) for noise in ('True', 'False') for tr in ('none', 'minimal')]
+COLS = ['fa', 'fb', 'fc', 'num', 'label']
+FC = ['b', 'a,c', '']      # a second multi-value column whose vocabulary overlaps with fa's
 
 
 def jobs(tier):
@@ -41,6 +42,7 @@ def jobs(tier):
     from vlib import selfcheck
     selfcheck.check_sympd()      # the pandas stand-in must agree with the real pandas on the operations the code uses
     out = _ch_jobs(tier)
+    out.append({'cond': 'twosided-amp', 'pins': {}, 'weight': 20, 'label': 'twosided-amp'})
     for fi in range(len(FLAGS)):
         out.append({'cond': 'pipeline', 'pins': {'flags': fi}, 'weight': 3, 'label': f'flags={FLAGS[fi]}'})
     return out
@@ -92,15 +94,19 @@ def check_pipeline(D, rows, flags):
     names = list(D.columns)
     fa, fb = [r[0] for r in rows], [r[1] for r in rows]
     mv = [c for c in names if c.startswith('MULTIEX-') and ' AND ' not in c]
-    if ex == 'fa':
-        toks = [O.tokens(v) for v in fa]
-        alltok = sorted({t for r in toks for t in r} - {'', '{}'})
-        if sorted(mv) != sorted('MULTIEX-fa-' + t for t in alltok):
-            probs.append(f'multi-value columns {sorted(mv)} vs tokens {alltok}')
+    if ex != 'False':
+        expm = {}
+        for feat in ex.split(';'):
+            vals = [r[COLS.index(feat)] for r in rows]
+            toks = [O.tokens(v) for v in vals]
+            for t in sorted({t for r in toks for t in r} - {'', '{}'}):
+                expm[f'MULTIEX-{feat}-{t}'] = ['1' if t in toks[i] else '' for i in range(n)]
+        if sorted(mv) != sorted(expm):
+            probs.append(f'multi-value columns {sorted(mv)} vs one per token of each exploded feature {sorted(expm)}')
         else:
-            for t in alltok:
-                if D['MULTIEX-fa-' + t].tolist() != ['1' if t in toks[i] else '' for i in range(n)]:
-                    probs.append(f'MULTIEX-fa-{t} is not the presence indicator of token {t!r}')
+            for k, v in expm.items():
+                if D[k].tolist() != v:
+                    probs.append(f'{k} is not the presence indicator of its token in its own feature: {D[k].tolist()} vs {v}')
     elif mv:
         probs.append('multi-value columns although expansion is off')
     sf = [c for c in names if c.startswith('SUBFEATURE') and ' AND ' not in c]
@@ -117,7 +123,7 @@ def check_pipeline(D, rows, flags):
         probs.append(f'sub-feature columns {sf} for the mapping {sub!r}: one-sided ones must carry fa+"AND"+fb exactly where fb has the value, two-sided ones must be the indicator of their value pair; expected {sorted(exp)}')
     ctrl = [c for c in names if c.startswith('CONTROL-') and ' AND ' not in c]
     if noise == 'True':
-        if 'CONTROL-target' not in names or D['CONTROL-target'].tolist() != [r[3] for r in rows]:
+        if 'CONTROL-target' not in names or D['CONTROL-target'].tolist() != [r[COLS.index('label')] for r in rows]:
             probs.append('CONTROL-target does not replicate the label column')
         if len(ctrl) < 5:
             probs.append(f'only {len(ctrl)} control columns')
@@ -152,8 +158,9 @@ def run_pipeline(job):
 
     def setup(ctx):
         st['a'] = [z3.Int(f'a{i}') for i in range(2)]
+        npool = len(FA_POOL) if job.get('tier') == 'thorough' else 3
         for v in st['a']:
-            ctx.assume(v >= 0, v < len(FA_POOL))
+            ctx.assume(v >= 0, v < npool)
         st['flags'] = z3.Int('flags')
         ctx.assume(st['flags'] >= 0, st['flags'] < len(FLAGS))
         for k, v in job['pins'].items():
@@ -162,7 +169,7 @@ def run_pipeline(job):
     def body(ctx, out):
         fi = int(SInt(st['flags'], 0, len(FLAGS) - 1))
         cells = [FA_POOL[int(SInt(v, 0, len(FA_POOL) - 1))] for v in st['a']]
-        rows = [[cells[0], 'x', '1', '0'], [cells[1], 'y', '2', '1'], ['b', 'x', '4', '0']]
+        rows = [[cells[0], 'x', FC[0], '1', '0'], [cells[1], 'y', FC[1], '2', '1'], ['b', 'x', FC[2], '4', '0']]
         w = {'cond': 'pipeline', 'fn': 'pipeline', 'rows': rows, 'flags': list(FLAGS[fi])}
         try:
             probs = check_pipeline(drive_pipeline(rows, FLAGS[fi]), rows, FLAGS[fi])
@@ -178,12 +185,79 @@ def run_pipeline(job):
     return hutil.run_symx(job, setup, body)
 
 
+AMP_A = ['r&b', 'r', 'a']
+AMP_B = ['a', 'b&a', 'b']
+
+
+def twosided_probs(rows):
+    """real compute_subfeatures('fa<->fb') on real pandas with values that contain '&': every emitted column must be the 0/1 indicator
+    of SOME value pair that renders to its name, and every observed pair's name must be present"""
+    import pandas as pd
+    import outrank.core_ranking as cr
+    PB = types.SimpleNamespace(set_description=lambda *a, **k: None)
+    args = types.SimpleNamespace(subfeature_mapping='fa<->fb', explode_multivalue_features='False', missing_value_symbols=',{}')
+    D = cr.compute_subfeatures(pd.DataFrame(rows, columns=['fa', 'fb']), None, args, PB)
+    n = len(rows)
+    probs = []
+    if list(D.columns[:2]) != ['fa', 'fb'] or D['fa'].tolist() != [r[0] for r in rows] or D['fb'].tolist() != [r[1] for r in rows]:
+        return ['original columns changed']
+    va, vb = list(dict.fromkeys(r[0] for r in rows)), list(dict.fromkeys(r[1] for r in rows))
+    byname = {}
+    for y in vb:
+        for x in va:
+            byname.setdefault('SUBFEATURE|fa|fb-' + x + '&' + y, []).append((x, y))
+    new = list(D.columns[2:])
+    if sorted(new) != sorted(byname):
+        probs.append(f'two-sided columns {sorted(new)} vs names of the value pairs {sorted(byname)}')
+    for nm in new:
+        col = D[nm].tolist()
+        if nm in byname and not any(col == ['1' if (rows[i][0] == x and rows[i][1] == y) else '0' for i in range(n)] for x, y in byname[nm]):
+            probs.append(f'{nm!r} = {col} is not the indicator of any value pair that renders to this name {byname[nm]} (rows {rows})')
+    return probs
+
+
+def run_amp(job):
+    loader.use_repo_on_syspath()
+    loader.record_functions('outrank/core_ranking.py', ['compute_subfeatures'])
+    st = {}
+
+    def setup(ctx):
+        st['c'] = [z3.Int(f'c{i}') for i in range(6)]
+        for v in st['c']:
+            ctx.assume(v >= 0, v < 3)
+
+    def body(ctx, out):
+        idx = [int(SInt(v, 0, 2)) for v in st['c']]
+        rows = [[AMP_A[idx[2 * i]], AMP_B[idx[2 * i + 1]]] for i in range(3)]
+        w = {'cond': 'twosided-amp', 'fn': 'twosided-amp', 'rows': rows}
+        try:
+            probs = twosided_probs(rows)
+        except Exception as e:
+            probs = [f'{type(e).__name__}: {e}']
+        if probs or out.twin:
+            out.concrete_fail(w, probs[0] if probs else 'twin')
+        else:
+            out.concrete_ok()
+        out.sample({'rows': rows})
+    return hutil.run_symx(job, setup, body)
+
+
 def run_job(job):
+    if job['cond'] == 'twosided-amp':
+        return run_amp(job)
     return run_pipeline(job) if job['cond'] == 'pipeline' else _ch_run(job)
 
 
 def replay(w):
     loader.use_repo_on_syspath()
+    if w['fn'] == 'twosided-amp':
+        try:
+            probs = twosided_probs(w['rows'])
+        except Exception as e:
+            return {'reproduced': True, 'signature': f'C11:twosided-amp:exception:{type(e).__name__}', 'what': f'{w["rows"]}: {type(e).__name__}: {e}'}
+        if probs:
+            return {'reproduced': True, 'signature': 'C11:twosided-amp', 'what': probs[0][:500]}
+        return {'reproduced': False, 'what': 'indicator of a value pair'}
     if w['fn'] == 'pipeline':
         try:
             probs = check_pipeline(drive_pipeline(w['rows'], tuple(w['flags'])), w['rows'], tuple(w['flags']))
